@@ -76,7 +76,7 @@ async def scenario(net, hyg, plan):
         users.append(aioftp.User(None, None, base_path="/", maximum_connections=plan["ulimits"].get("anon")))
     users.append(aioftp.User("a", "pa", base_path="/", maximum_connections=plan["ulimits"].get("a")))
     users.append(aioftp.User("b", None, base_path="/", maximum_connections=plan["ulimits"].get("b")))
-    w = W.World(net, users=users)
+    w = W.World(net, users=users, tree={"/big.bin": b"B" * 400000, "/small.txt": b"s"} if plan.get("files") else None)
     um = SlowManager(users, plan["slow_manager"]) if plan.get("slow_manager") else users
     w.server = BoomServer(um, path_io_factory=w.factory, maximum_connections=smax, idle_timeout=plan.get("idle_timeout"),
                           write_speed_limit=plan.get("write_speed_limit"))
@@ -384,6 +384,17 @@ def gen_cases(tier, seed):
                       "plan": {"seed": seed, "server_limit": 2, "ulimits": {"a": 1, "b": 1}, "anonymous": False, "slow_manager": 0.003,
                                "scripts": [sc + [["cmd", "USER boomuser"]], [["connect"], ["cmd", "USER a"], ["sleep", 0.05], ["quit"]]],
                                "offsets": [0, 0.0031]}})
+    # a re-login (same or other account) while a transfer of the session is still in flight, then the session vanishes
+    xfer = [["connect"], ["cmd", "USER a"], ["cmd", "PASS pa"], ["cmd", "TYPE I"], ["pasv"], ["data"],
+            ["raw", b"RETR /big.bin\r\n".hex(), "noreply"], ["sleep", 0.02]]
+    for second in ("USER a", "USER b", "USER nobody"):
+        for smax, ul in ((2, {"a": 1, "b": 1}), (None, {"a": 2})):
+            cases.append({"kind": "enum", "actions": ["rst", "fin"], "who": 0,
+                          "plan": {"seed": seed, "server_limit": smax, "ulimits": ul, "anonymous": False, "files": True,
+                                   "scripts": [xfer + [["raw", (second + "\r\n").encode().hex(), "noreply"], ["sleep", 0.05],
+                                                        ["raw", b"PASS pa\r\n".hex(), "noreply"], ["sleep", 0.05], ["cut", "rst"]],
+                                               [["connect"], ["cmd", "USER b"], ["sleep", 0.05], ["quit"]]],
+                                   "offsets": [0, 0.0031]}})
     # slow reply writer (server-wide write limit): the session ends while replies are still queued behind the throttle
     for sc in scripts + [[["connect"], ["cmd", "USER a"], ["cmd", "PASS pa"], ["quit"]]]:
         for smax, ul in ((1, {"a": 1}), (2, {"a": 1, "b": 1})):
